@@ -84,7 +84,8 @@ def NSAttr.builder (a : NSAttr) : AttributeBuilder :=
 theorem step_decl {b : Builder} {eb : ElementBuilder} (heb : b.eb = some eb) (a : NSAttr) {p : Str}
     (hd : a.declares = some p) (hw : WellSpelled a.pieces)
     (hres : reservedDecl p (valueOf true a.pieces) = false)
-    (hnew : (eb.namespaces.any fun d => d.1 == (b.env.internPrefix p).2) = false) :
+    (hnew : (eb.namespaces.any fun d => d.1 == (b.env.internPrefix p).2) = false)
+    (hbc : a.pfx.bareColon = false) :
     b.step a.token = .ok { b with
       env := ((b.env.internPrefix p).1.internNamespace (valueOf true a.pieces)).1,
       eb := some { eb with namespaces := eb.namespaces ++
@@ -98,7 +99,7 @@ theorem step_decl {b : Builder} {eb : ElementBuilder} (heb : b.eb = some eb) (a 
     unfold Builder.prefix
     simp only [hparse, hres, heb, hnew, Bool.false_eq_true, if_false]
   unfold NSAttr.declares at hd
-  simp only [NSAttr.token, Builder.step]
+  simp only [NSAttr.token, Builder.step, hbc, Bool.false_eq_true, if_false]
   by_cases h1 : (a.pfx.text == xmlnsStr) = true
   · simp only [h1, if_true, Option.some.injEq] at hd
     subst hd
@@ -120,7 +121,8 @@ theorem step_decl {b : Builder} {eb : ElementBuilder} (heb : b.eb = some eb) (a 
 /-- An ordinary attribute item: decoded, normalised as an attribute value, collected. -/
 theorem step_ord {b : Builder} {eb : ElementBuilder} (heb : b.eb = some eb) (a : NSAttr)
     (hd : a.declares = none) (hw : WellSpelled a.pieces)
-    (hnew : (eb.attributes.any fun ab => ab.pfx == a.pfx.text && ab.name == a.loc.text) = false) :
+    (hnew : (eb.attributes.any fun ab => ab.pfx == a.pfx.text && ab.name == a.loc.text) = false)
+    (hbc : a.pfx.bareColon = false) :
     b.step a.token = .ok { b with eb := some { eb with attributes := eb.attributes ++ [a.builder] } } := by
   have hparse := parse_pieces true a.vstart a.pieces 0 hw
   unfold NSAttr.declares at hd
@@ -134,7 +136,7 @@ theorem step_ord {b : Builder} {eb : ElementBuilder} (heb : b.eb = some eb) (a :
     by_cases h : (a.pfx.text.isEmpty && a.loc.text == xmlnsStr) = true
     · simp [h] at hd
     · simpa [xmlnsStr] using h
-  simp only [NSAttr.token, Builder.step, h1, Bool.false_eq_true, if_false, h2]
+  simp only [NSAttr.token, Builder.step, hbc, h1, Bool.false_eq_true, if_false, h2]
   unfold Builder.attribute
   simp only [heb, hnew, Bool.false_eq_true, if_false, hparse]
   rfl
@@ -149,6 +151,7 @@ theorem run_attrs_ns (rest : List Token) (lexErr : Option Nat) : ∀ (attrs : Li
     ((declsOf attrs).map Prod.fst).Nodup →
     (eb.attributes.map (fun ab => (ab.pfx, ab.name)) ++
       (ordinary attrs).map (fun a => (a.pfx.text, a.loc.text))).Nodup →
+    (∀ a ∈ attrs, a.pfx.bareColon = false) →
     b.run (attrs.map NSAttr.token ++ rest) lexErr =
       Builder.run { b with
         env := (declIds b.env (declsOf attrs)).1,
@@ -158,13 +161,15 @@ theorem run_attrs_ns (rest : List Token) (lexErr : Option Nat) : ∀ (attrs : Li
   intro attrs
   induction attrs with
   | nil =>
-    intro b eb heb _ _ _ _ _
+    intro b eb heb _ _ _ _ _ _
     simp only [List.map_nil, List.nil_append, declsOf, ordinary, List.filterMap_nil, List.filter_nil, declIds,
       List.append_nil]
     congr 1
     cases b; simp_all
   | cons a as ih =>
-    intro b eb heb hw hres hns hnd hna
+    intro b eb heb hw hres hns hnd hna hbc
+    have hbca := hbc a (by simp)
+    have hbcs : ∀ x ∈ as, x.pfx.bareColon = false := fun x hx => hbc x (by simp [hx])
     have hwa := hw a (by simp)
     have hws : ∀ x ∈ as, WellSpelled x.pieces := fun x hx => hw x (by simp [hx])
     simp only [List.map_cons, List.cons_append, Builder.run]
@@ -185,7 +190,7 @@ theorem run_attrs_ns (rest : List Token) (lexErr : Option Nat) : ∀ (attrs : Li
         intro he
         have : b.env.prefixes.idxOf q = b.env.prefixes.idxOf p := by rw [← hdq]; exact he
         exact hqn (by rw [idxOf_inj hq this]; simp)
-      rw [step_decl heb a hd hwa hresa hnew]
+      rw [step_decl heb a hd hwa hresa hnew hbca]
       simp only
       have happ : EnvApp b.env ((b.env.internPrefix p).1.internNamespace (valueOf true a.pieces)).1 :=
         (internPrefix_app b.env p).trans (internNamespace_app _ _)
@@ -195,7 +200,7 @@ theorem run_attrs_ns (rest : List Token) (lexErr : Option Nat) : ∀ (attrs : Li
             [((b.env.internPrefix p).2, ((b.env.internPrefix p).1.internNamespace (valueOf true a.pieces)).2)] } }
         { eb with namespaces := eb.namespaces ++
             [((b.env.internPrefix p).2, ((b.env.internPrefix p).1.internNamespace (valueOf true a.pieces)).2)] }
-        rfl hws hress ?_ hnd' hna]
+        rfl hws hress ?_ hnd' hna hbcs]
       · simp only [declIds, List.append_assoc, List.singleton_append]
       · intro d hdm
         simp only [List.mem_append, List.mem_singleton] at hdm
@@ -218,10 +223,10 @@ theorem run_attrs_ns (rest : List Token) (lexErr : Option Nat) : ∀ (attrs : Li
         have hdis := (List.nodup_append.mp hna).2.2
         exact hdis (ab.pfx, ab.name) (List.mem_map.mpr ⟨ab, hab, rfl⟩) (a.pfx.text, a.loc.text) (by simp)
           (by rw [h1, h2])
-      rw [step_ord heb a hd hwa hnew]
+      rw [step_ord heb a hd hwa hnew hbca]
       simp only
       rw [ih { b with eb := some { eb with attributes := eb.attributes ++ [a.builder] } }
-        { eb with attributes := eb.attributes ++ [a.builder] } rfl hws hres hns hnd ?_]
+        { eb with attributes := eb.attributes ++ [a.builder] } rfl hws hres hns hnd ?_ hbcs]
       · simp only [List.map_cons, List.append_assoc, List.singleton_append]
       · simpa [NSAttr.builder, List.map_append, List.append_assoc] using hna
 
